@@ -214,6 +214,25 @@ theorem alloc_order_product :
       f.events.take 4 = [.conformable, .sizeCheck, .capacityCheck, .alloc] := by
   decide
 
+/-- `reshape` is its header-level decision: the outcome depends on the matrix only through its
+order and element count, and a failing call returns the matrix as it was -/
+theorem reshape_by_decision (m : Matrix α) (s : Shape) :
+    m.reshape s = (reshapeDecision m.data.size s m.order).map fun d =>
+      match d with
+      | .error e => (.error e, m)
+      | .ok sh => (.ok (), { m with shape := sh }) := by
+  unfold Matrix.reshape reshapeDecision
+  cases h1 : Gen.Shape.try_to_axis_shape s m.order with
+  | error f => simp [bind, Except.bind, Except.map]
+  | ok sh =>
+    cases sh with
+    | error e => simp [bind, Except.bind, Except.map, pure, Except.pure]
+    | ok sh =>
+      simp only [bind, Except.bind]
+      cases h2 : Gen.AxisShape.size sh with
+      | error f => simp [Except.map]
+      | ok n =>
+        by_cases hn : m.data.size = n <;> simp [hn, Except.map, pure, Except.pure]
 /-- every capacity check uses the element size of the matrix being BUILT and the full element
 count of the result: `Self` and the requested shape's size in the shape-taking functions (the
 receiver is the result there), `Matrix::<U>` (the output element type) with the source's size in
